@@ -1,1 +1,70 @@
-"""placeholder; filled in below"""
+"""parquet.thrift -> PqV/Gen/Idl.lean (structs, unions, enums with field id / requiredness / type)."""
+import os, re
+from tools.translate import register
+from tools.translate_py import Unsupported
+
+PRIM = {"bool": ".bool", "byte": ".i8", "i8": ".i8", "i16": ".i16", "i32": ".i32", "i64": ".i64",
+        "double": ".double", "binary": ".binary", "string": ".string"}
+
+
+def strip_comments(txt):
+    txt = re.sub(r"/\*.*?\*/", "", txt, flags=re.S)
+    txt = re.sub(r"//[^\n]*", "", txt)
+    txt = re.sub(r"#[^\n]*", "", txt)
+    return txt
+
+
+def parse_idl(path):
+    txt = strip_comments(open(path).read())
+    enums = re.findall(r"\benum\s+(\w+)\s*\{", txt)
+    structs = {}
+    for m in re.finditer(r"\b(struct|union)\s+(\w+)\s*\{([^}]*)\}", txt):
+        kind, name, body = m.groups()
+        fields = []
+        for fm in re.finditer(r"(\d+)\s*:\s*(required|optional)?\s*([\w<>]+)\s+(\w+)\s*[;,]?", body):
+            fid, req, ty, fname = fm.groups()
+            fields.append((int(fid), fname, req == "required", ty))
+        structs[name] = (kind, fields)
+    return enums, structs
+
+
+def lean_type(ty, enums, structs):
+    if ty in PRIM:
+        return PRIM[ty]
+    m = re.fullmatch(r"list<(.+)>", ty)
+    if m:
+        return f"(.list {lean_type(m.group(1), enums, structs)})"
+    if ty in enums:
+        return f'(.enum "{ty}")'
+    if ty in structs:
+        return f'(.struct "{ty}")'
+    raise Unsupported(f"IDL type {ty}")
+
+
+@register("Idl")
+def gen_idl(repo):
+    enums, structs = parse_idl(os.path.join(repo, "fastparquet", "parquet.thrift"))
+    if not structs:
+        raise Unsupported("no structs parsed from parquet.thrift")
+    out = ["-- REGENERATED on every run by tools/translate_idl.py from fastparquet/parquet.thrift — do not edit",
+           "namespace PqV.Gen.Idl",
+           "inductive TT where",
+           "  | bool | i8 | i16 | i32 | i64 | double | binary | string",
+           "  | enum (name : String) | struct (name : String) | list (elem : TT)",
+           "  deriving Repr, DecidableEq, BEq",
+           "structure Field where",
+           "  id : Nat",
+           "  name : String",
+           "  required : Bool",
+           "  ty : TT",
+           "  deriving Repr, DecidableEq",
+           "def enums : List String := [" + ", ".join(f'"{e}"' for e in enums) + "]",
+           "def structs : List (String × List Field) := ["]
+    rows = []
+    for name, (kind, fields) in structs.items():
+        fs = ", ".join(f'⟨{fid}, "{fn}", {"true" if req else "false"}, {lean_type(ty, enums, structs)}⟩' for fid, fn, req, ty in fields)
+        rows.append(f'  ("{name}", [{fs}])')
+    out.append(",\n".join(rows))
+    out.append("]")
+    out.append("end PqV.Gen.Idl")
+    return "\n".join(out) + "\n"
